@@ -124,10 +124,11 @@ pub fn run(tier: Tier) -> ! {
     chk.set("schedule_assignments", json!(sr.assignments));
     // C08d: histories of one predictor object (flag toggles between fresh sentences)
     {
-        use rayon::prelude::*;
         let hs = predictor_histories(tier.pick(4, 5));
         chk.set("predictor_histories", json!(hs.len()));
-        hs.par_iter().for_each(|h| {
+        // sequential on purpose: with process-wide shared state in the library (what this property is
+        // about) a parallel sweep would observe non-replayable mixtures of histories
+        hs.iter().for_each(|h| {
             chk.eval(1);
             chk.nontrivial(1);
             if let Some((k, what)) = check_predictor_history(h) {
